@@ -210,9 +210,13 @@ fn synth_entries(rng: &mut Rng, for_profiles: bool) -> Vec<Entry> {
             cp += 1;
         }
     }
-    // like the real file: sometimes end with the plane-16 private use range, up to U+10FFFD
+    // like the real file: sometimes end with the plane-16 private use range, up to U+10FFFD - or one further,
+    // at U+10FFFE (syntactically fine; leaves a one-code-point tail gap), as a range or as a single
     if rng.chance(1, 3) && es.last().map(|e| e.hi < 0x100000).unwrap_or(true) {
-        es.push(Entry { lo: 0x100000, hi: 0x10FFFD, range: true, gc: "Co".into(), ccc: 0, bidi: "L".into(), decomp: String::new() });
+        let hi = if rng.chance(1, 3) { 0x10FFFE } else { 0x10FFFD };
+        es.push(Entry { lo: 0x100000, hi, range: true, gc: "Co".into(), ccc: 0, bidi: "L".into(), decomp: String::new() });
+    } else if rng.chance(1, 12) && es.last().map(|e| e.hi < 0x10FFF0).unwrap_or(true) {
+        es.push(Entry { lo: 0x10FFFE, hi: 0x10FFFE, range: false, gc: "Co".into(), ccc: 0, bidi: "L".into(), decomp: String::new() });
     }
     es
 }
@@ -285,6 +289,25 @@ fn perturb_entries(rng: &mut Rng, base: &[Entry]) -> Vec<Entry> {
 }
 
 fn random_intervals(rng: &mut Rng, max_cp: u32) -> Vec<(u32, u32)> {
+    let mut v = random_intervals_inner(rng, max_cp);
+    // edge shapes: an interval straddling a plane boundary, one ending at the last code point, a very long run
+    let last = v.last().map(|x| x.1).unwrap_or(0);
+    if rng.chance(1, 4) && last < 0xFFF0 {
+        v.push((0xFFFE - rng.below(3) as u32, 0x10001 + rng.below(3) as u32));
+    }
+    let last = v.last().map(|x| x.1).unwrap_or(0);
+    if rng.chance(1, 4) && last < 0x30000 {
+        v.push((0x30000 + rng.below(0x1000) as u32, 0x30000 + 0x1000 + rng.below(90_000) as u32));
+    }
+    let last = v.last().map(|x| x.1).unwrap_or(0);
+    if rng.chance(1, 4) && last < 0x10FF00 {
+        let lo = 0x10FFFF - rng.below(40) as u32;
+        v.push((lo, 0x10FFFF));
+    }
+    v
+}
+
+fn random_intervals_inner(rng: &mut Rng, max_cp: u32) -> Vec<(u32, u32)> {
     let mut v = Vec::new();
     let mut cp = rng.below(0x400) as u32;
     let n = rng.range(0, 25);
@@ -834,6 +857,55 @@ fn one_case(env: &Env, id: usize, rng: &mut Rng, base6: &[Entry], base16: &[Entr
             "generator-failed-on-well-formed-input",
             Witness { op: "precis-profiles/build.rs main()".into(), case: case.clone(), expected: "tables".into(), observed: e },
         ),
+    }
+    // regenerate IN PLACE: the same directory gets a UnicodeData.txt of exactly the same byte length but other
+    // content (bidi L<->R, gc Lu<->Ll, Zs<->So swapped on some entries), and the profiles build runs again in
+    // this process: the tables must follow the file, not an earlier parse of it
+    if !pinned && id % 3 == 0 && !es16.is_empty() {
+        let mut es2 = es16.clone();
+        let mut changed = 0;
+        for (k, e) in es2.iter_mut().enumerate() {
+            if (k + id) % 5 == 0 {
+                let nb = match e.bidi.as_str() {
+                    "L" => "R",
+                    "R" => "L",
+                    "AL" => "EN",
+                    "EN" => "AN",
+                    "AN" => "ES",
+                    "ON" => "WS",
+                    "NSM" => "LRE",
+                    other => other,
+                };
+                if nb != e.bidi {
+                    e.bidi = nb.to_string();
+                    changed += 1;
+                }
+                let ng = match e.gc.as_str() {
+                    "Zs" => "So",
+                    "So" => "Zs",
+                    "Lu" => "Ll",
+                    other => other,
+                };
+                e.gc = ng.to_string();
+            }
+        }
+        let text2 = render_unicode_data(&es2);
+        if changed > 0 && text2.len() == ud_text.len() && text2 != ud_text {
+            if std::fs::write(root2.join("resources/ucd/UnicodeData.txt"), &text2).is_ok() {
+                let case2 = format!("{};regenerated-in-place=1", case);
+                rec.nontrivial("profiles:regenerated-in-place-with-same-length-edit", &text2, || format!("{} ({} entries changed)", case2, changed));
+                match run_build(&root2, false) {
+                    Ok(()) => {
+                        let ud = UnicodeData::from_text(&text2);
+                        let _ = check_profiles_output(&root2.join("out"), &ud, &case2, rec);
+                    }
+                    Err(e) => rec.violation(
+                        "generator-failed-on-well-formed-input",
+                        Witness { op: "precis-profiles/build.rs main() (second run, same directory)".into(), case: case2, expected: "tables".into(), observed: e },
+                    ),
+                }
+            }
+        }
     }
     let keep = std::env::var("VERIF_KEEP_C15").is_ok();
     if !keep {
